@@ -294,6 +294,12 @@ func C11(v *View) []Violation {
 				}
 			}
 		}
+		if a := v.Rec.Before.API.Sets[set.Name]; a != nil && a.Annotations["paused-reconcile"] == "true" && !v.Paused {
+			// the cache is stale: the uncached read that precedes every adoption shows the pause
+			if isAdoptPatch(c) && (c.Resource == "pods" || c.Resource == "controllerrevisions") {
+				out = append(out, viol("C11", "adoption-after-api-pause", "%s adopts although the API copy of the set, read just before, says paused", c.ID))
+			}
+		}
 		if apiDeleting && !v.Deleting {
 			// the cache is stale: the uncached read must stop adoptions
 			if isAdoptPatch(c) && (c.Resource == "pods" || c.Resource == "controllerrevisions") {
